@@ -170,3 +170,29 @@ Definition election_probe (v : val) : val :=
   let s0 := enode0 (vn (vnth v 0)) (vn (vnth (vnth v 1) 0), vn (vnth (vnth v 1) 1)) in
   VL (snd (fold_left (fun acc ev => let '(s', r) := estep (fst acc) (eev_of_val ev) in (s', snd acc ++ [eobserve s' r]))
                      (vl (vnth v 2)) (s0, []))).
+
+(* ---- one election round over the transport (GrpcTransport::send_vote_requests + broadcast_vote_requests) ----
+   voters: (peer id, kind) as the membership lists them; kind 0 = reachable and granting, 3 = reachable and denying
+   (same term, log (0,0)), anything else = no channel / RPC error.  The electorate the majority is taken over is every
+   listed voter except the candidate itself, each once, whether or not it can be reached. *)
+Fixpoint electorate (me : N) (seen : list N) (vs : list (N * N)) : list (N * N) :=
+  match vs with
+  | [] => []
+  | v :: r => if (fst v =? me) || existsb (N.eqb (fst v)) seen then electorate me seen r
+              else v :: electorate me (fst v :: seen) r
+  end.
+Definition round_granted (el : list (N * N)) : N := N.of_nat (length (filter (fun x => snd x =? 0) el)).
+Definition round_denied (el : list (N * N)) : N := N.of_nat (length (filter (fun x => snd x =? 3) el)).
+Definition round_node (me t : N) : enode :=
+  {| en_id := me; en_role := Follower; en_term := t - 1; en_vote := None; en_last := (0, 0); en_saved := (t - 1, None) |}.
+Definition round_won (me t : N) (vs : list (N * N)) : N :=
+  let el := electorate me [] vs in
+  match el with
+  | [] => 0      (* the `!peer_ids.is_empty()` guard; the single-voter shortcut is is_single_node_cluster, not this *)
+  | _ => snd (estep (round_node me t) (ETimeout (round_granted el) 0 (N.of_nat (length el)) (round_denied el)))
+  end.
+(* input [me, term, [[id, kind]...]] -> [won, electorate ids in order of first occurrence] *)
+Definition vote_round_probe (v : val) : val :=
+  let me := vn (vnth v 0) in
+  let vs := map (fun x => (vn (vnth x 0), vn (vnth x 1))) (vl (vnth v 2)) in
+  VL [VN (round_won me (vn (vnth v 1)) vs); VL (map (fun x => VN (fst x)) (electorate me [] vs))].
